@@ -337,8 +337,51 @@ class VPureScheduler(_SchedBehaviour, PureScheduler):
         _late_attrs(self, spec)
 
 
+def build_latefill(spec, registry):
+    """another legitimate construction order: every scheduler is created empty, the
+    requirements are wired with Sequence(job, required=<bare object>) while the nested
+    schedulers are still empty, and the members are added last"""
+    from asynciojobs import Sequence
+
+    def create(sp, top):
+        if sp['kind'] == 'job':
+            obj = (VCoJob if sp.get('cls') == 'coroutine' else VJob)(sp)
+        else:
+            cls = VPureScheduler if (top and sp.get('cls') == 'pure') else VScheduler
+            obj = cls(sp)
+            for m in sp['members']:
+                create(m, False)
+        registry[sp['id']] = obj
+        return obj
+
+    def wire(sp):
+        if sp['kind'] != 'sched':
+            return
+        mem = sp['members']
+        for i, j in sp['edges']:
+            Sequence(registry[mem[j]['id']], required=registry[mem[i]['id']])
+        for m in mem:
+            wire(m)
+
+    def fill(sp):
+        if sp['kind'] != 'sched':
+            return
+        mem = sp['members']
+        ordered = [registry[mem[i]['id']] for i in sp.get('order', range(len(mem)))]
+        registry[sp['id']].update(ordered)
+        for m in mem:
+            fill(m)
+
+    top = create(spec, True)
+    wire(spec)
+    fill(spec)
+    return top
+
+
 def build(spec, registry, top=True, prelude=None):
     """instantiate the tree; registry maps id -> object"""
+    if top and spec.get('latefill'):
+        return build_latefill(spec, registry)
     if top and spec.get('prelude'):
         prelude = []
     objs = []
